@@ -104,7 +104,7 @@ def run_shard(shard, ctx):
     fk = fk0.split(".")[0]
     fwarm = fk0.endswith(".warm")
     Rs = BOUNDS[tier]["R"] if not shard.get("big") else [1, 4]
-    vis = ([0, 1, 100, objs.HARD] if tier == "quick" else [0, 1, 2, 3, 4, 100, 101, 102, objs.HARD]) if not shard.get("big") else [0, 100]
+    vis = ([0, 1, 100, objs.HARD] if tier == "quick" else [0, 1, 2, 3, 4, 100, 101, 102, 103, 104, 105, objs.HARD]) if not shard.get("big") else [0, 100]
     warms = WARM if "PDF" not in lk else ["cold"]
     for R1 in Rs:
         for R2 in Rs:
